@@ -355,3 +355,94 @@ def gantt_src_unit():
 
 
 UNITS += [gantt_src_unit()]
+
+
+# ================================================================================================ DhtmlxGantt.__data: one entry per task, links numbered 1, 2, 3, ... (C19, counts)
+# The entry / link dictionaries are opaque here (what they say - and the progress value proved above - is not looked at; the expressions inside the dictionary literals are NOT
+# evaluated, so their safety is not claimed).  Proved: the list handed to json.dumps as "data" has exactly one entry per task below the hidden root, root tree by root tree
+# (sum over the root tasks of 1 + len(dfs(root)) - the lines_for function of contracts/sheetrows.py); the "links" list carries the ids 1, 2, ..., n in this order.
+from contracts.closure import c_desc_list, CheckPlugin, ONE_AX, DFS_AX, MEASURE_AX
+from contracts.task import c_children, FAC_CLASSES
+from contracts.sheetrows import shown, SHOWN_AX
+DX = REF('DhtmlxGantt'); LIDS = LIST(INT); appI = Function('app_id', LIDS.z, IntSort(), LIDS.z); noI = Const('no_ids', LIDS.z); li_ = Const('li_', LIDS.z); v3 = Int('v3')
+IDS_AX = [ForAll([li_], LIDS.len(li_) >= 0), LIDS.len(noI) == 0,
+          ForAll([li_, v3], And(LIDS.len(appI(li_, v3)) == LIDS.len(li_) + 1, LIDS.at(appI(li_, v3), LIDS.len(li_)) == v3), patterns=[appI(li_, v3)]),
+          ForAll([li_, v3, n3], Implies(And(0 <= n3, n3 < LIDS.len(li_)), LIDS.at(appI(li_, v3), n3) == LIDS.at(li_, n3)), patterns=[LIDS.at(appI(li_, v3), n3)])]
+ENTRY = S('EntryDict', DeclareSort('EntryDict'))
+
+
+class DataPlugin(CheckPlugin):
+    def ev_Dict(self, eng, e, st):          # an entry / link dictionary: opaque (see the header comment)
+        return [(st, V(fresh('entry', ENTRY), ENTRY))]
+
+    def ev_List(self, eng, e, st):
+        if not e.elts: return [(st, V(IntVal(0), S('EntryCount', IntSort())))]          # data = [] / links = []: only the number of entries (and, for links, their ids) is kept
+        return CheckPlugin.ev_List(self, eng, e, st)
+
+    def ex_Assign(self, eng, stmt, st):
+        if ast.unparse(stmt.targets[0]) == 'links' and isinstance(stmt.value, ast.List) and not stmt.value.elts:
+            st.env['links'] = V(noI, LIDS); return [(st, FALL)]
+        return NotImplemented
+
+    def ex_If(self, eng, stmt, st):
+        if ast.unparse(stmt.test) == 't.end < datetime.now()':          # the progress value: proved in its own unit (DhtmlxGantt.__data.progress); it does not touch the lists
+            st.env['progress'] = V(fresh('progress', REAL), REAL); return [(st, FALL)]
+        return NotImplemented
+
+    def for_loop(self, eng, stmt, st):
+        if ast.unparse(stmt.iter) == 't.__dict__.items()': return [(st, FALL)]          # additional attributes go into the (opaque) entry
+        return CheckPlugin.for_loop(self, eng, stmt, st)
+
+    def call(self, eng, e, st):
+        f = e.func
+        if isinstance(f, ast.Attribute) and f.attr == 'append' and isinstance(f.value, ast.Name) and f.value.id == 'data':
+            st.env['data'] = V(st.env['data'].e + 1, st.env['data'].s); return [(st, V(None, NONE))]
+        if isinstance(f, ast.Attribute) and f.attr == 'append' and isinstance(f.value, ast.Name) and f.value.id == 'links' and isinstance(e.args[0], ast.Dict):
+            d = e.args[0]; idx_ = [k for k, key in enumerate(d.keys) if isinstance(key, ast.Constant) and key.value == 'id']
+            if len(idx_) != 1: raise Unsupported('link dictionary without an id')
+            s, v = eng.ev1(d.values[idx_[0]], st)
+            s.env['links'] = V(appI(s.env['links'].e, v.e), LIDS); return [(s, V(None, NONE))]
+        if isinstance(f, ast.Attribute) and f.attr == 'dumps' and isinstance(f.value, ast.Name) and f.value.id == 'json':
+            st.ghost['final_data'] = st.env['data'].e; st.ghost['final_links'] = st.env['links'].e
+            return [(st, V(fresh('json_text', TXT), TXT))]
+        return CheckPlugin.call(self, eng, e, st)
+
+
+def dhtmlx_data_unit():
+    def build():
+        hc = lambda c: H(c.eng, c.st)
+        wbs = lambda c: Select(c.fld('DhtmlxGantt', 'wbs'), c['self']); hroot = lambda c: hc(c).root[wbs(c)]
+        RS = lambda c: hc(c).ch(hroot(c))          # the root tasks
+        cnt = lambda c, i: shown(hc(c).chl, hc(c).elems, RS(c), BoolVal(True), i)
+        numbered = lambda c: And(c['link_id'] == LIDS.len(c['links']), ForAll([n3], Implies(And(0 <= n3, n3 < LIDS.len(c['links'])), LIDS.at(c['links'], n3) == n3 + 1), patterns=[LIDS.at(c['links'], n3)]))
+
+        def c_roots(eng, st, recv, args, kws, node):
+            return c_children(eng, st, V(H(eng, st).root[recv.e], T), [], {}, node)
+        c_pre = lambda eng, st, recv, a, k, n: [(st, V(H(eng, st).pre[recv.e], LR))]
+        from contracts.task import forest_struct
+        from contracts.closure import WFH
+        fc = {'sig': {'self': DX, 'task_classes': ENTRY}, 'locals': {'data': S('EntryCount', IntSort()), 'links': LIDS, 'link_id': INT, '_root': T, 't': T, 'p': T, 'progress': REAL, 'data_val': ENTRY},
+              'ghost': {'final_data': INT, 'final_links': LIDS},
+              'requires': [('renderer-has-a-wbs-with-its-hidden-root', lambda c: And(c['self'] != DX.null, wbs(c) != W.null, hroot(c) != null)),
+                           ('forest', lambda c: And(forest_struct(hc(c), hroot(c)), WFH(hc(c).par, hc(c).chl, hc(c).elems))),
+                           ('predecessor-lists-exist', lambda c: ForAll([t_r], Implies(t_r != null, hc(c).pre[t_r] != LR.null), patterns=[hc(c).pre[t_r]]))],
+              'loops': {0: {'fingerprint': 'for _root in self.wbs.roots', 'havoc': ['data', 'links', 'link_id'],
+                            'invariant': [('entries-so-far', lambda c: And(same_heap(c), c['_i0'] >= 0, c['_i0'] <= ln(RS(c)), c['data'] == cnt(c, c['_i0']))), ('links-numbered-in-order', numbered)]},
+                        1: {'fingerprint': 'for t in _root.all_children + [_root]', 'havoc': ['data', 'links', 'link_id'],
+                            'invariant': [('entries-of-this-root-tree-so-far', lambda c: And(same_heap(c), c['_i0'] >= 1, c['_i0'] <= ln(RS(c)), c['_root'] == at(RS(c), c['_i0'] - 1), c['_root'] != null,
+                                                                                         ln(c['_seq1']) == ln(dfs(hc(c).chl, hc(c).elems, c['_root'])) + 1, c['_i1'] >= 0, c['_i1'] <= ln(c['_seq1']),
+                                                                                         ForAll([n3], Implies(And(0 <= n3, n3 < ln(c['_seq1'])), at(c['_seq1'], n3) != null), patterns=[at(c['_seq1'], n3)]),
+                                                                                         c['data'] == cnt(c, c['_i0'] - 1) + c['_i1'])), ('links-numbered-in-order', numbered)]},
+                        2: {'fingerprint': 'for (k, v) in t.__dict__.items()', 'invariant': [('opaque-entry', lambda c: BoolVal(True))]},          # not executed: the additional attributes go into the opaque entry (DataPlugin.for_loop)
+                        3: {'fingerprint': 'for p in t.predecessors', 'havoc': ['links', 'link_id'],
+                            'invariant': [('links-numbered-in-order', numbered), ('frame', lambda c: And(same_heap(c), c['_i3'] >= 0))]}},
+              'ensures': [('C19/one-entry-per-task-root-tree-by-root-tree', lambda c: c.st.ghost['final_data'] == cnt(c, ln(RS(c)))),
+                          ('C19/links-are-numbered-1-2-3-in-order', lambda c: ForAll([n3], Implies(And(0 <= n3, n3 < LIDS.len(c.st.ghost['final_links'])), LIDS.at(c.st.ghost['final_links'], n3) == n3 + 1))),
+                          ('C19/reads-the-task-graph-only', same_heap)]}
+        contracts = {'prop:WBS.roots': c_roots, 'prop:Task.all_children': c_desc_list('all_children'), 'prop:Task.predecessors': c_pre}
+        cl = dict(FAC_CLASSES); cl['DhtmlxGantt'] = {'wbs': W}
+        return Engine(FD, 'DhtmlxGantt.__data', contracts, cl, fc, plugins=[DataPlugin(), ChildrenPlugin()]), LIST_AX + LIST_CAT_AX + GRAPH_AX + ONE_AX + DFS_AX + SHOWN_AX + IDS_AX
+    return Unit('DhtmlxGantt.__data', FD, build, ['C19'], timeout_ms=15000)
+
+
+UNITS += [dhtmlx_data_unit()]
